@@ -1063,6 +1063,7 @@ def sym_exp(x):
     a = _atom(key, Rat(x.c, x.f), "+")
     if not known:
         CTX.exp_atoms.append(a.f[0][0])
+        CTX.assumptions.append(z3f(a.f[0][0]) > 0)
     return Rat(a.c, a.f, x.g)
 
 
@@ -1147,6 +1148,9 @@ def _sqrt_factor(fid, sign):
     afid = a.f[0][0]
     if not known:
         CTX.sqrt_atoms.append(afid)
+        # sign facts go to the assumptions too, so that the explorer's feasibility solver does not chase paths on which a
+        # square root is negative
+        CTX.assumptions.append(z3f(afid) >= 0 if sign != "+" else z3f(afid) > 0)
     elif sign == "+" and CTX.sign[afid] != "+":
         CTX.sign[afid] = "+"
     return a
@@ -1180,6 +1184,8 @@ def _sgn_atom(fid):
     a = _atom(key)
     if not known:
         CTX.sgn_atoms.append(a.f[0][0])
+        t, arg = z3f(a.f[0][0]), z3f(fid)
+        CTX.assumptions.append(z3.Or(z3.And(t == 1, arg > 0), z3.And(t == -1, arg < 0), z3.And(t == 0, arg == 0)))
     return a
 
 
